@@ -870,6 +870,15 @@ static void expect_rev(const std::string& kind, R&& range, std::vector<V> want)
     stats["other-type-ranges"]++;
 }
 
+static const std::vector<int> make_const_vector()
+{
+    return std::vector<int>{ 10, 11, 12, 13, 14 };
+}
+static const std::list<std::string> make_const_list()
+{
+    return std::list<std::string>{ "a somewhat longer first element", "second", "" };
+}
+
 static void other_type_checks()
 {
     using nitro::lang::enumerate;
@@ -952,6 +961,28 @@ static void other_type_checks()
         expect_rev<decltype(reverse(big)), long long>("std::vector<long long>", reverse(big), big);
         expect_enum<decltype(enumerate(dbl)), double>("std::vector<double>", enumerate(dbl), dbl);
         expect_rev<decltype(reverse(dbl)), double>("std::vector<double>", reverse(dbl), dbl);
+    }
+    {
+        // CONST temporaries (a function returning `const C`, std::move of a const container): the range must own
+        // them for the whole loop like any other temporary (ASan watches)
+        expect_enum<decltype(enumerate(make_const_vector())), int>("std::vector:const-rvalue", enumerate(make_const_vector()),
+                                                                   { 10, 11, 12, 13, 14 });
+        expect_rev<decltype(reverse(make_const_vector())), int>("std::vector:const-rvalue", reverse(make_const_vector()),
+                                                                { 10, 11, 12, 13, 14 });
+        expect_enum<decltype(enumerate(make_const_list())), std::string>("std::list<string>:const-rvalue", enumerate(make_const_list()),
+                                                                         { "a somewhat longer first element", "second", "" });
+        expect_rev<decltype(reverse(make_const_list())), std::string>("std::list<string>:const-rvalue", reverse(make_const_list()),
+                                                                      { "a somewhat longer first element", "second", "" });
+        auto stored = [] {
+            const std::vector<int> local{ 7, 8, 9 };
+            return enumerate(std::move(local)); // the range outlives `local`
+        }();
+        expect_enum<decltype(stored)&, int>("std::vector:moved-const-lvalue", stored, { 7, 8, 9 });
+        auto rstored = [] {
+            const std::vector<int> local{ 7, 8, 9 };
+            return reverse(std::move(local));
+        }();
+        expect_rev<decltype(rstored)&, int>("std::vector:moved-const-lvalue", rstored, { 7, 8, 9 });
     }
 #ifndef ITER_NO_VECTOR_BOOL
     {
